@@ -68,7 +68,8 @@ def build_settings(mem):
     else:
         phy = make_phy(mem["memtype"], mem["nphases"], mem.get("databits", 16), mem.get("rdphase", 0),
                        mem.get("wrphase", 0), mem.get("cl", 2), mem.get("cwl"), mem.get("read_latency", 4),
-                       mem.get("write_latency", 0), mem.get("nranks", 1), mem.get("dfi_mult"))
+                       mem.get("write_latency", 0), mem.get("nranks", 1), mem.get("dfi_mult"),
+                       phase_signals=bool(mem.get("phase_signals")))
         geom = GeomSettings(mem["bankbits"], mem["rowbits"], mem["colbits"])
         t = dict(DEFAULT_TIMING)
         t.update(mem.get("timing", {}))
